@@ -339,9 +339,9 @@ pub fn run(ctx: &Ctx) -> Report {
                     let mut b = buf.clone();
                     b[pos] ^= 1 << bit;
                     if let Some(b2) = refp(&b) {
-                                judge_guarded(judge, &Case::new("validate", b2).text(&[&ct, "bitflip"]), &mut acc);
+                                judge_guarded(judge, &mutant_case(buf, b2, &ct, "bitflip"), &mut acc);
                             }
-                            judge_guarded(judge, &Case::new("validate", b).text(&[&ct, "bitflip"]), &mut acc);
+                            judge_guarded(judge, &mutant_case(buf, b, &ct, "bitflip"), &mut acc);
                 }
                 for v in 0..=255u8 {
                     if light || v == buf[pos] || (v ^ buf[pos]).count_ones() == 1 {
@@ -350,9 +350,9 @@ pub fn run(ctx: &Ctx) -> Report {
                     let mut b = buf.clone();
                     b[pos] = v;
                     if let Some(b2) = refp(&b) {
-                                judge_guarded(judge, &Case::new("validate", b2).text(&[&ct, "bytesub"]), &mut acc);
+                                judge_guarded(judge, &mutant_case(buf, b2, &ct, "bytesub"), &mut acc);
                             }
-                            judge_guarded(judge, &Case::new("validate", b).text(&[&ct, "bytesub"]), &mut acc);
+                            judge_guarded(judge, &mutant_case(buf, b, &ct, "bytesub"), &mut acc);
                 }
             }
             if thorough && *by_builder && i % 7 == 0 {
@@ -364,9 +364,9 @@ pub fn run(ctx: &Ctx) -> Report {
                             b[2 + lb / 8] ^= 1 << (lb % 8);
                             b[pos] ^= 1 << bit;
                             if let Some(b2) = refp(&b) {
-                                judge_guarded(judge, &Case::new("validate", b2).text(&[&ct, "pair"]), &mut acc);
+                                judge_guarded(judge, &mutant_case(buf, b2, &ct, "pair"), &mut acc);
                             }
-                            judge_guarded(judge, &Case::new("validate", b).text(&[&ct, "pair"]), &mut acc);
+                            judge_guarded(judge, &mutant_case(buf, b, &ct, "pair"), &mut acc);
                         }
                     }
                 }
@@ -403,9 +403,9 @@ pub fn run(ctx: &Ctx) -> Report {
                             let mut b = buf.clone();
                             b[off + 4..off + 4 + a.len].copy_from_slice(&alt);
                             if let Some(b2) = refp(&b) {
-                                judge_guarded(judge, &Case::new("validate", b2).text(&[&ct, "bytesub"]), &mut acc);
+                                judge_guarded(judge, &mutant_case(buf, b2, &ct, "bytesub"), &mut acc);
                             }
-                            judge_guarded(judge, &Case::new("validate", b).text(&[&ct, "bytesub"]), &mut acc);
+                            judge_guarded(judge, &mutant_case(buf, b, &ct, "bytesub"), &mut acc);
                         }
                     }
                     // the other hash function under the same key
@@ -420,9 +420,26 @@ pub fn run(ctx: &Ctx) -> Report {
                         let mut b = buf.clone();
                         b[off + 4..off + 4 + a.len].copy_from_slice(&cross);
                         if let Some(b2) = refp(&b) {
-                                judge_guarded(judge, &Case::new("validate", b2).text(&[&ct, "bytesub"]), &mut acc);
+                                judge_guarded(judge, &mutant_case(buf, b2, &ct, "bytesub"), &mut acc);
                             }
-                            judge_guarded(judge, &Case::new("validate", b).text(&[&ct, "bytesub"]), &mut acc);
+                            judge_guarded(judge, &mutant_case(buf, b, &ct, "bytesub"), &mut acc);
+                    }
+                }
+            }
+            // (3c) CRC-preserving forgeries of fingerprinted messages: one covered byte changed and the
+            // last four bytes in front of the FINGERPRINT (the tail of the HMAC) chosen so that the CRC,
+            // and with it the FINGERPRINT value, stays what it was - no key needed
+            if let Some(fo) = fp_off {
+                if fo >= 28 && buf.len() == fo + 8 {
+                    let target = crate::refimpl::crypto::crc32_fast(&buf[..fo]);
+                    let positions: Vec<usize> = (0..fo - 4).filter(|p| *p == 1 || (8..20).contains(p) || *p >= 20).step_by(3).take(24).collect();
+                    for pos in positions {
+                        let mut b = buf.clone();
+                        b[pos] ^= 0x10;
+                        let (head, _) = b.split_at_mut(fo);
+                        if force_crc(head, fo - 4, target) {
+                            judge_guarded(judge, &mutant_case(buf, b, &ct, "crc-preserving"), &mut acc);
+                        }
                     }
                 }
             }
@@ -444,11 +461,74 @@ pub fn run(ctx: &Ctx) -> Report {
     Report {
         acc,
         exhaustive: true,
-        rule: "8 bodies x fingerprint yes/no x 8 credentials x {SHA-1, SHA-256, both} sealed by the real builder (plus the cross product 4 classes x 3 methods x 8 credentials x 3 sealings x fingerprint x 3 bodies with a reduced fault set: bit flips of the type / length field and of the integrity attributes, alternative HMAC values and keys) (build(), and write_into() a used buffer before / after into_owned()); reference-serialised messages with SHA-256 truncated to 12..36 bytes, MI256-before-MI order and mixed correctness; on each: every single-bit flip and every byte value at every position from offset 0 through the end of the last integrity attribute, plausible alternative HMAC values in each integrity attribute (other length fields, other ranges, the other hash), every corrupted buffer of a fingerprinted message also with its FINGERPRINT recomputed, up to 25 near-miss keys (case, trailing space / NUL, prefixes of 16/20/32/63/64/65/128 bytes, other credential kind, swapped parts); decorated credentials (quotes, blanks, trailing dot, mixed case, non-ASCII in each part) with their cleaned forms as alternative keys; key-length sweep: short-term passwords of every length 0..=140 and long-term credentials with parts of 0..200 bytes x {SHA-1, SHA-256, both} x {builder, reference serialiser}; unsealed bodies x 8 credentials; distinct_nontrivial = sealed buffers".into(),
+        rule: "8 bodies x fingerprint yes/no x 8 credentials x {SHA-1, SHA-256, both} sealed by the real builder (plus the cross product 4 classes x 3 methods x 8 credentials x 3 sealings x fingerprint x 3 bodies with a reduced fault set: bit flips of the type / length field and of the integrity attributes, alternative HMAC values and keys) (build(), and write_into() a used buffer before / after into_owned()); reference-serialised messages with SHA-256 truncated to 12..36 bytes, MI256-before-MI order and mixed correctness; on each: every single-bit flip and every byte value at every position from offset 0 through the end of the last integrity attribute, plausible alternative HMAC values in each integrity attribute (other length fields, other ranges, the other hash), every corrupted buffer of a fingerprinted message also with its FINGERPRINT recomputed, CRC-preserving forgeries (a covered byte changed and the tail of the HMAC chosen so that the FINGERPRINT value stays), each corrupted copy validated right after its original, up to 25 near-miss keys (case, trailing space / NUL, prefixes of 16/20/32/63/64/65/128 bytes, other credential kind, swapped parts); decorated credentials (quotes, blanks, trailing dot, mixed case, non-ASCII in each part) with their cleaned forms as alternative keys; key-length sweep: short-term passwords of every length 0..=140 and long-term credentials with parts of 0..200 bytes x {SHA-1, SHA-256, both} x {builder, reference serialiser}; unsealed bodies x 8 credentials; distinct_nontrivial = sealed buffers".into(),
         bounds: json!({"sealed_buffers": n_sealed, "unsealed": unsealed.len(), "faults": if thorough { "single bit, all byte values, length-bit x any-bit pairs" } else { "single bit, all byte values" }}),
         assumptions: vec!["HMAC-SHA1/SHA-256 collision resistance (no forgery that needs to break the MAC is explored)".into(), "keys outside the alternative-key alphabet are not explored".into()],
         ..Default::default()
     }
+}
+
+/// A corrupted copy `b` of the sealed message `orig`; the case records the original value of every
+/// changed byte (up to 32 of them) so that the judgement can parse and validate the original first,
+/// as a receiver of a retransmission would have, and the corrupted copy afterwards.
+fn mutant_case(orig: &[u8], b: Vec<u8>, ct: &str, tag: &str) -> Case {
+    let mut args = Vec::new();
+    if orig.len() == b.len() && orig.len() <= 4096 {
+        for (i, (x, y)) in orig.iter().zip(b.iter()).enumerate() {
+            if x != y {
+                args.push(i as i64);
+                args.push(*x as i64);
+            }
+        }
+        if args.len() > 64 {
+            args.clear();
+        }
+    }
+    Case::new("validate", b).text(&[ct, tag]).args(&args)
+}
+
+/// Solves for the 4 bytes at `q..q+4` of `p` such that CRC-32(p) becomes `target` (CRC-32 is affine
+/// in those 32 bits, and for the last four bytes of the buffer the system is regular).
+fn force_crc(p: &mut [u8], q: usize, target: u32) -> bool {
+    let crc = |d: &[u8]| crate::refimpl::crypto::crc32_fast(d);
+    let base = crc(p);
+    let mut rows: Vec<(u32, u32)> = Vec::with_capacity(32); // (delta, which bit)
+    for bit in 0..32usize {
+        p[q + bit / 8] ^= 1 << (bit % 8);
+        let d = crc(p) ^ base;
+        p[q + bit / 8] ^= 1 << (bit % 8);
+        rows.push((d, 1u32 << bit));
+    }
+    // Gaussian elimination over GF(2): express want = base ^ target as a combination of the deltas
+    let mut want = base ^ target;
+    let mut pick: u32 = 0;
+    let mut basis: Vec<(u32, u32)> = Vec::new();
+    for (mut d, mut m) in rows {
+        for (bd, bm) in &basis {
+            if d & (bd & bd.wrapping_neg()) != 0 {
+                d ^= bd;
+                m ^= bm;
+            }
+        }
+        if d != 0 {
+            basis.push((d, m));
+        }
+    }
+    for (bd, bm) in &basis {
+        if want & (bd & bd.wrapping_neg()) != 0 {
+            want ^= bd;
+            pick ^= bm;
+        }
+    }
+    if want != 0 {
+        return false;
+    }
+    for bit in 0..32usize {
+        if pick >> bit & 1 == 1 {
+            p[q + bit / 8] ^= 1 << (bit % 8);
+        }
+    }
+    crc(p) == target
 }
 
 pub fn judge(case: &Case, acc: &mut Acc) {
@@ -457,6 +537,21 @@ pub fn judge(case: &Case, acc: &mut Acc) {
     let c = creds_parse(&case.text[0]);
     let tag = case.text.get(1).map(|s| s.as_str()).unwrap_or("?");
     let key = c.key();
+    // the uncorrupted original is parsed and validated first (what a memo of "the last message that
+    // validated" would have been filled with)
+    if !case.args.is_empty() {
+        let mut orig = buf.clone();
+        for pv in case.args.chunks(2) {
+            if let [p, v] = pv {
+                if (*p as usize) < orig.len() {
+                    orig[*p as usize] = *v as u8;
+                }
+            }
+        }
+        if let Ok(m0) = Message::from_bytes(&orig) {
+            let _ = m0.validate_integrity(&real::creds(&c));
+        }
+    }
     let msg = match Message::from_bytes(buf) {
         Ok(m) => m,
         Err(_) => {
@@ -483,7 +578,7 @@ pub fn judge(case: &Case, acc: &mut Acc) {
             // "after changing any byte up to and including the integrity attribute ... fails
             // validation" — for a message sealed with both algorithms that covers both attributes,
             // so a success is admissible only if no exposed integrity attribute was damaged
-            let faulted = matches!(tag, "bitflip" | "bytesub" | "pair");
+            let faulted = matches!(tag, "bitflip" | "bytesub" | "pair" | "crc-preserving");
             let fine = fine_lenient && (!faulted || correct.len() == present.len());
             if fine_lenient && !fine {
                 acc.outcome("VIOLATION: validates although an integrity attribute was corrupted");
